@@ -32,7 +32,7 @@ inductive Kind where
   | link (dest : Bytes) (title : Option Bytes)
   | rawHTML (segs : List Bytes)
   /-- `cjk` is the decision of `EastAsianLineBreaks.softLineBreak(lastRune, siblingFirstRune)` as computed by the
-      real functions for this node and its next sibling (a parameter of the model; unicode tables are not modelled) -/
+      real functions for this node and the first character of its next sibling's text (a parameter of the model; unicode tables are not modelled) -/
   | text (value : Bytes) (soft hard raw : Bool) (cjk : Bool)
   | string (value : Bytes) (raw code : Bool)
   | table
